@@ -6,7 +6,8 @@ thousand clauses).  Cross-checked against vlib/tt.py in tools/selftest_lib.py.
 """
 import sys
 
-sys.setrecursionlimit(10000)
+if sys.getrecursionlimit() < 10000:
+    sys.setrecursionlimit(10000)
 
 
 def _simplify(clauses, lit):
@@ -52,19 +53,29 @@ def _normalize(clauses):
     return out
 
 
-def solve(n, clauses):
-    """Returns a model as a list of n signed literals, or None."""
+class Budget(Exception):
+    """the node budget of a bounded search is exhausted (the answer is unknown)"""
+
+
+def solve(n, clauses, max_nodes=None):
+    """Returns a model as a list of n signed literals, or None.
+    With max_nodes the search is cut after that many nodes and Budget is raised (a deterministic
+    budget: no clock involved)."""
     cl = _normalize(clauses)
     if cl is None:
         return None
-    res = _solve(cl, [])
+    res = _solve(cl, [], [max_nodes] if max_nodes is not None else None)
     if res is None:
         return None
     val = {abs(l): l for l in res}
     return [val.get(v, -v) for v in range(1, n + 1)]
 
 
-def _solve(clauses, assigned):
+def _solve(clauses, assigned, budget=None):
+    if budget is not None:
+        budget[0] -= 1
+        if budget[0] < 0:
+            raise Budget()
     assigned = list(assigned)
     clauses = _propagate(clauses, assigned)
     if clauses is None:
@@ -77,7 +88,7 @@ def _solve(clauses, assigned):
         nc = _simplify(clauses, lit)
         if nc is None:
             continue
-        r = _solve(nc, assigned + [lit])
+        r = _solve(nc, assigned + [lit], budget)
         if r is not None:
             return r
     return None
